@@ -49,17 +49,7 @@ class C07(Check):
                 "Pox.C07.sync_excludes", "Pox.C07.sync_mutual", "Pox.C07.schedule_atmost1", "Pox.C07.schedule_wake_kept",
                 "Pox.C07.wake_noticed", "Pox.C07.hub_mode", "Pox.C07.lock_excl", "Pox.C07.lock_handoff",
                 "Pox.C07.lock_excl_needs_discipline"]
-    anchors = [("pox/lib/recoco/recoco.py", 196, 201), ("pox/lib/recoco/recoco.py", 233, 233), ("pox/lib/recoco/recoco.py", 247, 248),
-               ("pox/lib/recoco/recoco.py", 272, 279), ("pox/lib/recoco/recoco.py", 286, 290), ("pox/lib/recoco/recoco.py", 303, 306),
-               ("pox/lib/recoco/recoco.py", 310, 311), ("pox/lib/recoco/recoco.py", 315, 319), ("pox/lib/recoco/recoco.py", 328, 331),
-               ("pox/lib/recoco/recoco.py", 336, 344), ("pox/lib/recoco/recoco.py", 350, 352),
-               ("pox/lib/recoco/recoco.py", 474, 474), ("pox/lib/recoco/recoco.py", 487, 487), ("pox/lib/recoco/recoco.py", 503, 504),
-               ("pox/lib/recoco/recoco.py", 519, 530), ("pox/lib/recoco/recoco.py", 533, 542), ("pox/lib/recoco/recoco.py", 561, 561),
-               ("pox/lib/recoco/recoco.py", 813, 820), ("pox/lib/recoco/recoco.py", 826, 829), ("pox/lib/recoco/recoco.py", 832, 838),
-               ("pox/lib/recoco/recoco.py", 886, 908), ("pox/lib/recoco/recoco.py", 911, 914), ("pox/lib/recoco/recoco.py", 924, 927),
-               ("pox/lib/recoco/recoco.py", 931, 936), ("pox/lib/recoco/recoco.py", 942, 942), ("pox/lib/recoco/recoco.py", 954, 955),
-               ("pox/lib/recoco/recoco.py", 980, 989), ("pox/lib/recoco/recoco.py", 994, 1003), ("pox/lib/recoco/recoco.py", 1015, 1025),
-               ("pox/lib/recoco/recoco.py", 1086, 1109), ("pox/core.py", 264, 264), ("pox/core.py", 283, 283), ("pox/core.py", 294, 294)]
+    anchors = []             # computed in setup(): the bodies of the functions listed in harness/translate/sites.py
     design_ref = "DESIGN.md §5 C07, Appendix B"
     coverage_cases = 10 ** 9          # every case contributes to the anchored-line coverage (managed threads report it)
     search_budget = {"quick": 500, "thorough": 5000}
@@ -82,6 +72,8 @@ class C07(Check):
         """line numbers of the listed statements (from the ast translator; no Lean involved)"""
         self.extract = sites_tr.extract(common.REPO)
         self.trace_funcs, self.yield_lines = set(), set()
+        self.anchors = [(rel, span[2], span[1]) for rel, qual, sts, span in self.extract
+                        if span is not None and not rel.endswith("util.py")]
         for rel, qual, sts, span in self.extract:
             if span is None or not rel.endswith("recoco.py"): continue
             if qual.startswith("Lock.") or qual.startswith("_Lock"): continue        # sequential part: not traced
